@@ -1340,7 +1340,56 @@ func (p *Program) VerifyFunc(key string) (res *FuncResult) {
 	c.vecMeaningObligations(st)
 	fr := &frame{c: c}
 	fr.ret = func(s *State, vals []Value) { c.atReturn(s, vals) }
-	c.execBlock(fr, fi.Decl.Body.List, st, func(s *State) {
+	body := fi.Decl.Body.List
+	if raw := con.Raw["tail"]; len(raw) > 0 {
+		// tail <k> assigns <fields>: only the first k top-level statements are executed (the
+		// validating prefix of a constructor-like function); the rest is NOT verified: it is taken to
+		// return anything and to write only the listed fields of the receiver / parameters, local
+		// variables and memory (checked syntactically: tailCheck).  The postconditions are then
+		// owed for every return of the prefix and for an arbitrary outcome of the tail.
+		k, fields := c.parseTail(raw[0])
+		if k < 0 || k > len(body) {
+			panic(verr("%s: tail %d: the function has %d top-level statements", con.File, k, len(body)))
+		}
+		c.tailCheck(body[k:], fields)
+		prefix := body[:k]
+		c.assumed = append(c.assumed, fmt.Sprintf("tail: statements %d.. of the body are not verified; assumed (checked syntactically) to write only %v, locals and memory", k, fields))
+		c.execBlock(fr, prefix, st, func(s *State) {
+			for _, h := range sortedHeapNames(s.heaps) {
+				s.heaps[h] = Var(c.freshName(h), SArr)
+			}
+			c.havocGhosts(s, nil)
+			c.bumpRefTop(s)
+			for _, fx := range fields {
+				sel, ok := fx.(*ast.SelectorExpr)
+				if !ok {
+					panic(verr("%s: tail assigns: %s is not a field", con.File, exprString(fx)))
+				}
+				var facts []*Term
+				base, ok := c.specEnv(s, &facts).Eval(sel.X).(*StructV)
+				if !ok {
+					panic(verr("%s: tail assigns: %s is not a field of a struct", con.File, exprString(fx)))
+				}
+				owner, ft := c.resolveField(s, base, sel.Sel.Name)
+				if ft == nil {
+					panic(verr("%s: tail assigns: unknown field %s", con.File, exprString(fx)))
+				}
+				if s.fieldOv == nil {
+					s.fieldOv = map[string]Value{}
+				}
+				s.fieldOv[fieldOvKey(owner, sel.Sel.Name)] = c.symValue(s, c.freshName("tail."+sel.Sel.Name), ft)
+			}
+			var vals []Value
+			for i, r := range c.results {
+				vals = append(vals, c.symValue(s, c.freshName(fmt.Sprintf("tail.res%d", i)), r.Type()))
+			}
+			c.atReturn(s, vals)
+		})
+		res.Obls = c.obls
+		res.Assumed = c.assumed
+		return
+	}
+	c.execBlock(fr, body, st, func(s *State) {
 		var vals []Value
 		for _, r := range c.results {
 			vals = append(vals, s.vars[r])
@@ -2043,4 +2092,138 @@ func (c *FuncCtx) freshSlice(st *State, elem types.Type, ln, cp *Term) SliceV {
 	st.allocs = append(st.allocs, s)
 	c.assumed = append(c.assumed, "allocation model: slices reachable from the inputs lie below a watermark brk0, make returns storage at or above it, disjoint from earlier makes of the same path")
 	return s
+}
+
+// parseTail: "<k> assigns <field exprs>".
+func (c *FuncCtx) parseTail(raw string) (int, []ast.Expr) {
+	f := strings.Fields(raw)
+	if len(f) < 2 || f[1] != "assigns" {
+		panic(verr("%s: tail expects: <k> assigns <fields>", c.con.File))
+	}
+	k, err := strconv.Atoi(f[0])
+	if err != nil {
+		panic(verr("%s: tail: bad statement index %q", c.con.File, f[0]))
+	}
+	rest := strings.TrimSpace(raw[strings.Index(raw, "assigns")+7:])
+	var out []ast.Expr
+	if rest != "" {
+		es, err := parseExprList(rest, c.con.File)
+		if err != nil {
+			panic(verr("%s: tail: %v", c.con.File, err))
+		}
+		out = es
+	}
+	return k, out
+}
+
+// tailCheck: the unverified tail assigns only locals, the listed fields (or parts of them) and
+// memory, and hands neither the receiver nor a pointer / struct parameter itself to a callee.
+func (c *FuncCtx) tailCheck(tail []ast.Stmt, fields []ast.Expr) {
+	allowed := map[string]bool{}
+	for _, f := range fields {
+		allowed[exprString(f)] = true
+	}
+	owners := map[string]bool{} // receiver and parameters of pointer / struct type
+	sig := c.fi.Obj.Type().(*types.Signature)
+	mark := func(v *types.Var) {
+		if v == nil || v.Name() == "" {
+			return
+		}
+		switch v.Type().Underlying().(type) {
+		case *types.Pointer, *types.Struct:
+			owners[v.Name()] = true
+		}
+	}
+	mark(sig.Recv())
+	for i := 0; i < sig.Params().Len(); i++ {
+		mark(sig.Params().At(i))
+	}
+	rootField := func(e ast.Expr) (string, bool) {
+		// the longest prefix of e of the form owner.field
+		for {
+			switch x := e.(type) {
+			case *ast.IndexExpr:
+				e = x.X
+				continue
+			case *ast.ParenExpr:
+				e = x.X
+				continue
+			case *ast.StarExpr:
+				e = x.X
+				continue
+			case *ast.SelectorExpr:
+				if id, ok := x.X.(*ast.Ident); ok && owners[id.Name] {
+					return exprString(x), true
+				}
+				e = x.X
+				continue
+			case *ast.Ident:
+				return x.Name, false
+			}
+			return "", false
+		}
+	}
+	for _, st := range tail {
+		ast.Inspect(st, func(n ast.Node) bool {
+			switch x := n.(type) {
+			case *ast.AssignStmt:
+				for _, l := range x.Lhs {
+					if rf, isField := rootField(l); isField {
+						if !allowed[rf] {
+							panic(verr("%s: the unverified tail assigns %s, which the tail clause does not list", c.con.File, exprString(l)))
+						}
+					} else if owners[rf] {
+						panic(verr("%s: the unverified tail assigns through %s", c.con.File, rf))
+					}
+				}
+			case *ast.IncDecStmt:
+				if rf, isField := rootField(x.X); isField && !allowed[rf] {
+					panic(verr("%s: the unverified tail modifies %s", c.con.File, exprString(x.X)))
+				}
+			case *ast.CallExpr:
+				for _, a := range x.Args {
+					a = stripParens(a)
+					if u, ok := a.(*ast.UnaryExpr); ok && u.Op == token.AND {
+						a = stripParens(u.X)
+					}
+					if id, ok := a.(*ast.Ident); ok && owners[id.Name] {
+						panic(verr("%s: the unverified tail passes %s to a call", c.con.File, id.Name))
+					}
+				}
+				if sel, ok := x.Fun.(*ast.SelectorExpr); ok {
+					if id, ok := sel.X.(*ast.Ident); ok && owners[id.Name] {
+						if _, isMethod := c.info.Selections[sel]; isMethod {
+							panic(verr("%s: the unverified tail calls the method %s on %s", c.con.File, sel.Sel.Name, id.Name))
+						}
+					}
+				}
+			}
+			return true
+		})
+	}
+}
+
+// resolveField: the struct that declares the (possibly promoted) field name of sv, and the field's type.
+func (c *FuncCtx) resolveField(st *State, sv *StructV, name string) (*StructV, types.Type) {
+	stt, ok := sv.T.Underlying().(*types.Struct)
+	if !ok {
+		return nil, nil
+	}
+	for i := 0; i < stt.NumFields(); i++ {
+		if f := stt.Field(i); f.Name() == name {
+			return sv, f.Type()
+		}
+	}
+	for i := 0; i < stt.NumFields(); i++ {
+		f := stt.Field(i)
+		if !f.Embedded() {
+			continue
+		}
+		if es, ok := c.field(st, sv, f.Name()).(*StructV); ok {
+			if o, t := c.resolveField(st, es, name); t != nil {
+				return o, t
+			}
+		}
+	}
+	return nil, nil
 }
